@@ -345,7 +345,11 @@ impl Sim {
                     (Err(fault_err), json!({"r":"error"}))
                 } else {
                     let key: Vec<String> = params["key"].as_array().map(|a| a.iter().map(|x| x.as_str().unwrap_or("").to_string()).collect()).unwrap_or_default();
+                    let modelled = abs["key"] == "state";
                     match self.store.get(&key).cloned() {
+                        // the plugin gets what is stored; the model only knows the state keys (a read of any other key,
+                        // e.g. of an attempt record, is abstractly "absent", as Node.tla says)
+                        Some((s, g)) if !modelled => (Ok(json!({"datastore":[{"key":key,"generation":g,"string":s}]})), json!({"r":"ok","st":"absent","gen":0})),
                         Some((s, g)) => {
                             let mut a = self.abs_state(&s);
                             a["gen"] = json!(g);
@@ -373,6 +377,20 @@ impl Sim {
                         (_, None) => Ok(0),
                     },
                 };
+                if abs["key"] == "other" {
+                    // a key the model does not know: the node does what it does, the abstract result is constant
+                    let res = match &verdict {
+                        Ok(newgen) => {
+                            self.store.insert(key.clone(), (s.clone(), *newgen));
+                            Ok(json!({"key":key,"generation":newgen,"string":s}))
+                        }
+                        Err(e) => Err(e.clone()),
+                    };
+                    let c = self.calls.get_mut(&id).unwrap();
+                    c.st = st;
+                    c.result = Some(res);
+                    return json!({"r":"ok","applied":true,"gen":0});
+                }
                 match verdict {
                     Ok(newgen) => {
                         // generations of attempt records are not part of the model
